@@ -448,7 +448,10 @@ class Engine:
             return Adt(s, None)
         if re.match(r"usize::MAX|core::usize::MAX", s):
             return Int(z3.BitVecVal(2 ** 64 - 1, 64), 64, False)
-        # enum unit variant constant, e.g. `const FallbackMode::Error` is printed as aggregate normally; function items:
+        # unit enum variant as a constant, e.g. `const Option::<Infallible>::None`
+        segs = [x for x in strip_generics(s).split("::") if x]
+        if len(segs) >= 2 and segs[-2] in self.enums and segs[-1] in self.enums[segs[-2]]:
+            return Adt(segs[-2], self.variant_index(segs[-2], segs[-1]))
         return FnItem(s)
 
     def eval_promoted(self, fn, n):
